@@ -2923,6 +2923,10 @@ HPgetdiskblock(filerec_t *file_rec, int32 block_size, int moveto)
     if (file_rec == NULL || block_size < 0)
         HGOTO_ERROR(DFE_ARGS, FAIL);
 
+    /* file offsets are 32-bit signed: refuse a block that would end beyond 2^31-1 */
+    if (block_size > (int32)0x7fffffff - file_rec->f_end_off)
+        HGOTO_ERROR(DFE_RANGE, FAIL);
+
 #ifdef DISKBLOCK_DEBUG
     block_size += (DISKBLOCK_HSIZE + DISKBLOCK_TSIZE);
     /* get the offset of the allocated block */
